@@ -13,6 +13,7 @@ import Pff.Model.Ecc
 import Pff.Model.Entry
 import Pff.Model.Run
 import Pff.Model.Csv
+import Pff.Model.Path
 /-!
 Line-protocol driver: one request per line on stdin, one canonical reply per line on stdout.
 Run with `lake env lean --run Pff/Driver.lean`. Byte strings are hex ("-" = empty); lists of
@@ -585,6 +586,26 @@ def handle (toks : List String) : String :=
     | some bs, some cs =>
       let r := Pff.Vote.majorityVote bs cs
       s!"{toHex r.out} {r.status} {showNums r.errors}"
+    | _, _ => "bad-op"
+  | "pathop" :: fn :: cwd :: args =>
+    -- path functions: replies hex, `none` (the real function raises) or `/`-separated... parts as hex joined by ","
+    match parseHex cwd, args.mapM parseHex with
+    | some cwd, some args =>
+      let showParts := fun (l : List (List Nat)) => if l.isEmpty then "~" else ",".intercalate (l.map toHex)
+      let showOpt := fun (o : Option (List Nat)) => match o with | some b => toHex b | none => "none"
+      match fn, args with
+      | "normpath", [p] => toHex (Pff.Path.normpath p)
+      | "abspath", [p] => toHex (Pff.Path.abspath cwd p)
+      | "join", a :: more => toHex (Pff.Path.join a more)
+      | "relpath", [p, s] => showOpt (Pff.Path.relpath cwd p s)
+      | "dirname", [p] => toHex (Pff.Path.dirname p)
+      | "basename", [p] => toHex (Pff.Path.basename p)
+      | "split", [p] => showParts (Pff.Path.splitSlash p)
+      | "parts", [p] => showParts (Pff.Path.pureParts p)
+      | "path2unix", [p] => showOpt (Pff.Path.path2unix p)
+      | "relposix", [d, f, par] => (match Pff.Path.relpathPosix cwd d f par with | some l => showParts l | none => "none")
+      | "genrel", [root, d, f] => showOpt ((Pff.Path.relpath cwd (Pff.Path.join2 d f) root).bind Pff.Path.path2unix)
+      | _, _ => "bad-op"
     | _, _ => "bad-op"
   | ["diffbytes", bs, s1, s2, a, b] =>
     match bs.toNat?, s1.toNat?, s2.toNat?, parseHex a, parseHex b with
